@@ -11,7 +11,7 @@ use std::borrow::Cow;
 macro_rules! harness {
     ($name:ident, $body:expr) => {
         #[kani::proof]
-        #[kani::unwind(66)]
+        #[kani::unwind(5)]
         #[kani::stub(crate::parser::parse_value, no_parse_value)]
         #[kani::stub(crate::de::from_slice, no_from_slice)]
         #[kani::stub(std::ptr::drop_in_place, noop_drop)]
@@ -750,13 +750,15 @@ harness!(c15_filter_then_step, modes(2));
 //@ desc: vacuity twin: `$[*]` on a 2-element array claimed to select nothing — must be refuted
 //@ fns: Selector::select
 #[kani::proof]
-#[kani::unwind(66)]
+#[kani::unwind(5)]
 #[kani::stub(crate::parser::parse_value, no_parse_value)]
 #[kani::stub(crate::de::from_slice, no_from_slice)]
 #[kani::stub(std::ptr::drop_in_place, noop_drop)]
 fn c08_twin_must_fail() {
     let d = B::build(&arr(&[leaf(K_NUM, 2), leaf(K_STR, 1)]));
     let jp = JsonPath { paths: vec![Path::Root, Path::BracketWildcard] };
-    let (_data, offs) = run(&d, &jp, Mode::All);
-    assert!(offs.is_empty(), "TWIN: deliberately false");
+    let (data, offs) = run(&d, &jp, Mode::All);
+    let e = offs.is_empty();
+    core::mem::forget((data, offs, jp));
+    assert!(e, "TWIN: deliberately false");
 }
